@@ -128,18 +128,39 @@ def staged (locals : KV) (p : Path) (stage : Nat) : KV :=
 /-- Overwrite loop `for k, v := range special { varStack[k] = v }`. -/
 def overlay (base special : KV) : KV := special.foldr (fun kv d => set d kv.1 kv.2) base
 
-/-- The stack `BuildTaskCommand` hands to the command-line fields:
-    workflow stack + task specials, wrapped over the template's defaults, the
-    result wrapped over the template's vars. -/
+/-- The order in which `BuildTaskCommand` layers the task template's two maps under the
+    workflow stack — the one thing the repair of finding `task_template_defaults_over_vars`
+    (notes/C14.fix-1.patch) changed. -/
+structure TaskCfg where
+  /-- the final command-line stack is workflow ▷ (template vars ▷ template defaults) -/
+  cmdVarsOverDefaults : Bool
+  deriving Repr, DecidableEq, Inhabited
+
+/-- The code as it is: `workflowStack` is kept and wrapped over (vars over defaults). -/
+def codeCfg : TaskCfg := { cmdVarsOverDefaults := true }
+
+/-- The code before the repair: (workflow ▷ defaults) ▷ vars. -/
+def legacyCfg : TaskCfg := { cmdVarsOverDefaults := false }
+
+/-- The stack `BuildTaskCommand` hands to the command-line fields (value, user,
+    env, arguments, stdout, stderr), as the code is: workflow stack + task
+    specials (`workflowStack`), wrapped over (the template's vars wrapped over
+    the template's defaults). (The intermediate stack `workflowStack ▷ defaults`
+    still exists in the code: the template's vars are RESOLVED against it; with
+    template-free values, the harness's assumption, that is not observable.) -/
 def cmdStack (wf special tDefaults tVars : KV) : KV :=
+  wrappedAndFlattened (overlay wf special) [tVars, tDefaults]
+
+/-- `BuildTaskCommand` before notes/C14.fix-1.patch: workflow stack + task
+    specials, wrapped over the template's defaults, the RESULT wrapped over the
+    template's vars — the defaults beat the vars. -/
+def legacyCmdStack (wf special tDefaults tVars : KV) : KV :=
   let s0 := overlay wf special
   let s1 := wrappedAndFlattened s0 [tDefaults]
   wrappedAndFlattened s1 [tVars]
 
-/-- `cmdStack` after notes/C14.fix.patch: workflow stack + specials wrapped over
-    (template vars over template defaults). Not what the code does today. -/
-def cmdStackFixed (wf special tDefaults tVars : KV) : KV :=
-  wrappedAndFlattened (overlay wf special) [tVars, tDefaults]
+def cmdStackOf (cfg : TaskCfg) (wf special tDefaults tVars : KV) : KV :=
+  if cfg.cmdVarsOverDefaults then cmdStack wf special tDefaults tVars else legacyCmdStack wf special tDefaults tVars
 
 /-- The stack `BuildPropertyMap` hands to the property fields: workflow stack
     wrapped over (template vars over template defaults), then the specials. -/
@@ -192,8 +213,9 @@ structure RoleObs where
   task : Option (KV × KV)          -- what command-line / property fields of the task see
   deriving Repr, Inhabited, DecidableEq
 
-/-- The model's observation: the code's mechanism (flatten / merge / wrap). -/
-def modelObs (keys : List String) (special : KV) (r : RoleIn) : RoleObs :=
+/-- The model's observation: the code's mechanism (flatten / merge / wrap), for either
+    configuration of `BuildTaskCommand`. -/
+def modelObsOf (cfg : TaskCfg) (keys : List String) (special : KV) (r : RoleIn) : RoleObs :=
   let p := r.path
   let (d, v, u) := consolidatedMaps p
   { stack := tabulate keys (lookup (consolidated p))
@@ -202,7 +224,10 @@ def modelObs (keys : List String) (special : KV) (r : RoleIn) : RoleObs :=
     gets := [tabulate keys (get (dChain p)), tabulate keys (get (vChain p)), tabulate keys (get (uChain p))]
     stages := (List.range 6).map fun s => tabulate keys (lookup (staged r.locals p s))
     task := r.tmpl.map fun (td, tv) =>
-      (tabulate keys (lookup (cmdStack (consolidated p) special td tv)),
+      (tabulate keys (lookup (cmdStackOf cfg (consolidated p) special td tv)),
        tabulate keys (lookup (propStack (consolidated p) special td tv))) }
+
+/-- The model of the code as it is (what the driver compares the implementation with). -/
+abbrev modelObs (keys : List String) (special : KV) (r : RoleIn) : RoleObs := modelObsOf codeCfg keys special r
 
 end Vars
